@@ -289,6 +289,18 @@ def run_check(prop: str, fn, tier: str, root: pathlib.Path, evidence_dir=None) -
         fn(ctx)
         return ctx.finish()
     except AnalysisError as e:
+        # an anchor vanished while the analysis was under way.  Violations that were decided before that point are decided: they are
+        # reported as such (exit 1); only an analysis that broke without having found anything is "analysis broken" (exit 2)
+        known_keys = {(k["rule"], k["file"], k["construct"]) for k in ctx._known()}
+        decided = [o for o in ctx.obligations if not o.ok and o.key() not in known_keys]
+        if decided:
+            os.environ["NVSA_NO_META"] = "1"
+            try:
+                ctx.finish()
+            except AnalysisError:
+                pass
+            print(f"NOTE property={prop}: the analysis stopped early: {e}")
+            return 1
         print(f"ANALYSIS-ERROR property={prop}: {e}")
         return 2
     except Exception as e:  # noqa
